@@ -475,14 +475,24 @@ MsgCountBad == {k \in OpenKeys : TableFor(k) # IeNames /\ Len(NgapTypes[k].alts)
 SeqMarked == {k \in DOMAIN NgapTypes : NgapTypes[k].k = "seq" /\ \E i \in 1..Len(NgapTypes[k].fields) : NgapTypes[k].fields[i].name \in {"IEExtensions", "ProtocolIEs"}}
 SeqRuleBad == {k \in SeqMarked : LET t == NgapTypes[k] n == Len(t.fields) IN
                  ~(t.ext /\ ((\E i \in 1..n : t.fields[i].name = "IEExtensions") => (t.fields[n].name = "IEExtensions" /\ t.fields[n].opt)))}
+\* generic rule for CHOICE types: NGAP CHOICEs are not extensible; they end in "choice-Extensions ProtocolIE-SingleContainer {{...}}"
+\* instead, and the index is a constrained whole number over exactly the alternatives (NGAP-PDU alone is an extensible CHOICE of three)
+ChoiceKeys == {k \in DOMAIN NgapTypes : NgapTypes[k].k = "choice"}
+ChoiceBad == {k \in ChoiceKeys : LET t == NgapTypes[k] n == Len(t.alts) IN
+                IF HasPrefix(NameOf(k), "NGAPPDU") THEN ~(t.ext /\ n = 3 /\ t.ub.has /\ t.ub.n = 2)
+                ELSE IF \E i \in 1..n : t.alts[i].name = "ChoiceExtensions"
+                     THEN ~(~t.ext /\ t.alts[n].name = "ChoiceExtensions" /\ t.ub.has /\ t.ub.n = n - 1)
+                     ELSE FALSE}
 Init == l = 1 /\ bad = 0
 Next == /\ l <= Len(Rows)
         /\ (IF l = 1
-            THEN /\ PrintT("FAMILY " \o ToString(FamilyCount + Len(Structs) + Cardinality(SeqMarked) + Cardinality(OpenKeys)))
+            THEN /\ PrintT("FAMILY " \o ToString(FamilyCount + Len(Structs) + Cardinality(SeqMarked) + Cardinality(OpenKeys) + Cardinality(ChoiceKeys)))
                  /\ \A p \in OpenRefBad : PrintT("REJECT line=0 id=" \o p[1] \o " ev=Tag why=C03: " \o p[1] \o ": alternative " \o NgapTypes[p[1]].alts[p[2]].name
                                                    \o " is tagged with identifier " \o ToString(NgapTypes[p[1]].alts[p[2]].ref) \o ", which TS 38.413 assigns to "
                                                    \o NameFor(TableFor(p[1]), NgapTypes[p[1]].alts[p[2]].ref) \o " (or the identifier is used twice in this container)")
                  /\ \A k \in MsgCountBad : PrintT("REJECT line=0 id=" \o k \o " ev=Tag why=C03: " \o k \o ": " \o ToString(Len(NgapTypes[k].alts)) \o " messages in this class, TS 38.413 defines " \o ToString(Len(TableFor(k))))
+                 /\ \A k \in ChoiceBad : PrintT("REJECT line=0 id=" \o k \o " ev=Tag why=C03: " \o k \o ": a CHOICE of TS 38.413 is not extensible, ends in choice-Extensions and is indexed over exactly its alternatives; struct tags give ext "
+                                                  \o ToString(NgapTypes[k].ext) \o ", " \o ToString(Len(NgapTypes[k].alts)) \o " alternatives, index bound " \o ToString(NgapTypes[k].ub))
                  /\ \A k \in SeqRuleBad : PrintT("REJECT line=0 id=" \o k \o " ev=Tag why=C03: " \o k \o ": a SEQUENCE with iE-Extensions / protocolIEs is extensible in TS 38.413 (and iE-Extensions is its last, OPTIONAL component); the struct tags at this use site give ext " \o ToString(NgapTypes[k].ext))
                  /\ \A i \in 1..Len(Structs) : LET c == StructComplaint(Structs[i]) IN
                        IF c = "ok" THEN TRUE
